@@ -514,6 +514,18 @@ def m_slice_is_empty(it, st, fr, t, args, ga):
     return I.BoolV(cmp_term('Eq', c.len, 0))
 
 
+def m_slice_contains(it, st, fr, t, args, ga):
+    """<[T]>::contains: false for a sequence known to be empty; any other state keeps the default treatment of the call
+    (the result then still remembers which symbols its arguments mentioned)"""
+    try:
+        c = _cont(it, st, args[0])
+    except I.InterpError:
+        return I.DECLINE
+    if c.len is not None and st.ctx.decide(cmp_term('Eq', c.len, 0)) is True:
+        return I.BoolV(FALSE)
+    return I.DECLINE
+
+
 def m_slice_iter(it, st, fr, t, args, ga):
     c = _cont(it, st, args[0])
     return I.ContV('slice_iter', c.term, length=c.len, elem_ty=c.elem_ty, extra=dict(c.extra))
@@ -2190,6 +2202,7 @@ def registry():
         'core::iter::range::<impl core::iter::Iterator for core::ops::Range<A>>::next': m_range_next,
         'core::slice::<impl [T]>::len': m_slice_len,
         'core::slice::<impl [T]>::is_empty': m_slice_is_empty,
+        'core::slice::<impl [T]>::contains': m_slice_contains,
         'core::slice::<impl [T]>::iter': m_slice_iter,
         'core::slice::<impl [T]>::last': m_slice_last,
         'core::slice::<impl [T]>::first': m_slice_first,
